@@ -140,7 +140,15 @@ def gen_compound(rng, D, veto):
     return None
 
 
-def gen_op(rng, dump, profile="c01", compound=False, veto=False):
+def gen_op(rng, dump, profile="c01", compound=False, veto=False, badpos=False):
+    op = _gen_op(rng, dump, profile, compound, veto)
+    # an INVALID position argument (not an integer): the call must be refused and leave everything as it was
+    if badpos and op.get("pos") is not None and not op.get("veto") and not op.get("veto_ref") and rng.random() < 0.05:
+        op["badpos"] = rng.choice(["float", "str", "list"])
+    return op
+
+
+def _gen_op(rng, dump, profile="c01", compound=False, veto=False):
     if compound and rng.random() < 0.06:
         op = gen_compound(rng, dump, veto)
         if op is not None:
@@ -305,6 +313,9 @@ def _gen_cat(rng, dump, cat, valid, veto=False):
             return None
         n = rng.choice(nls)
         r = rng.random()
+        if r < 0.06:
+            # an INVALID argument: neither an instance, a definition nor None (refused, nothing changes)
+            return {"t": "setTop", "n": n, "i": None, "badtype": rng.choice(["str", "int", "tuple", "float"])}
         if r < 0.15:
             return {"t": "setTop", "n": n, "i": None}
         if r < 0.55 and D["instance"]:
